@@ -527,14 +527,16 @@ ConstFailure(cx, t) ==
 \* constant expressions with an imaginary literal (Python: (1.5-2j), numpy.complex64((1.5-2j))) are not
 \* interpreted by the spec: accepted as denoting any constant node of complex type (leniency)
 RECURSIVE CplxShape(_, _), HasImag(_, _)
-CplxCtors == {"call:complex", "call:numpy.complex64", "call:numpy.complex128", "call:std::complex<float>", "call:std::complex<double>"}
+CplxCtors == {"call:complex", "call:numpy.complex64", "call:numpy.complex128", "call:std::complex<float>", "call:std::complex<double>",
+              "call:numpy.int8", "call:numpy.int16", "call:numpy.int32", "call:numpy.int64"}
 CplxShape(rows, i) ==
   LET r == rows[i]
   IN  \/ r.o = "lit"
       \/ r.o \in {"un:-", "un:+", "bin:+", "bin:-", "cast:float", "cast:double"} \cup CplxCtors
            /\ Len(r.a) >= 1 /\ \A j \in 1..Len(r.a) : CplxShape(rows, r.a[j])
 HasImag(rows, i) == (rows[i].o = "lit" /\ rows[i].s = "imag") \/ \E j \in 1..Len(rows[i].a) : HasImag(rows, rows[i].a[j])
-CplxConst(rows, i) == rows[i].o # "lit" /\ CplxShape(rows, i) /\ (HasImag(rows, i) \/ rows[i].o \in {"call:std::complex<float>", "call:std::complex<double>"})
+CplxConst(rows, i) == /\ (rows[i].o # "lit" \/ rows[i].s = "imag") /\ CplxShape(rows, i)
+                      /\ (HasImag(rows, i) \/ rows[i].o \in {"call:std::complex<float>", "call:std::complex<double>"})
 
 \* Denotation d of row i and the PENDING failures f of its sub-tree.  Failures stay pending until the
 \* row is known to stand at an operand position (hole) of a matched parent or to be a whole statement
@@ -571,7 +573,7 @@ DenRow(cx, st, i) ==
         IN  IF argcast # {} THEN [d |-> CloseTransparent(cx, argcast \cup ops), f |-> {}]
             ELSE IF consts # {} THEN [d |-> CloseTransparent(cx, consts \cup ops), f |-> {}]
             ELSE IF CplxConst(rows, i) THEN
-              [d |-> CloseTransparent(cx, {m \in cx.consts : IsComplexT(nodes[m].t)} \cup {m \in ops : pend(m, best(m)) = {}}), f |-> {}]
+              [d |-> CloseTransparent(cx, {m \in cx.consts : IsComplexT(nodes[m].t) \/ nodes[m].v.c = "unsupported"} \cup {m \in ops : pend(m, best(m)) = {}}), f |-> {}]
             \* (a constant expression is matched as an operation only when that confirms no failure of its parts:
             \*  `-(1.5)` whose literal denotes nothing is a failed constant, not the negation of anything)
             ELSE IF ops # {} /\ (~rv.ok \/ \E m \in ops : pend(m, best(m)) = {}) THEN
@@ -590,12 +592,13 @@ DenRow(cx, st, i) ==
               IN  IF \E x \in below : x[1] = "def_before_use" THEN [d |-> Top(nodes), f |-> below]   \* an undefined name: the enclosing term is not judged again
                   ELSE IF permuted # {} THEN [d |-> permuted, f |-> below \cup {Fail("operand_order", i, r.o)}]
                   ELSE IF relaxed # {} THEN
-                    \* name the variable(s) standing where another node is required
-                    LET m == CHOOSE x \in relaxed : TRUE
-                        p == CHOOSE q \in impl[m] : q.o # "hole" /\ LET b == Bind(rows, q, i) IN b # NoBind /\ b # <<>> /\ FitsRelaxed(nodes[m], b, ds, rows)
-                        b == Bind(rows, p, i)
-                        wrong == {rows[b[q][2]].s : q \in {qq \in 1..Len(b) : rows[b[qq][2]].o = "var" /\ nodes[m].a[b[qq][1]] \notin ds[b[qq][2]]}}
-                    IN  [d |-> relaxed, f |-> below \cup {Fail("distinct_share", i, v) : v \in wrong}]
+                    \* name the variable(s) standing where another node is required: those of the candidate node
+                    \* that needs the fewest variables to change
+                    LET pat(m) == CHOOSE q \in impl[m] : q.o # "hole" /\ LET b == Bind(rows, q, i) IN b # NoBind /\ b # <<>> /\ FitsRelaxed(nodes[m], b, ds, rows)
+                        wrong(m) == LET b == Bind(rows, pat(m), i)
+                                    IN  {rows[b[q][2]].s : q \in {qq \in 1..Len(b) : rows[b[qq][2]].o = "var" /\ nodes[m].a[b[qq][1]] \notin ds[b[qq][2]]}}
+                        m0 == CHOOSE m \in relaxed : \A m2 \in relaxed : Cardinality(wrong(m)) <= Cardinality(wrong(m2))
+                    IN  [d |-> relaxed, f |-> below \cup {Fail("distinct_share", i, v) : v \in wrong(m0)}]
                   ELSE [d |-> Top(nodes), f |-> below \cup {Fail("operator", i, r.o)}]
 
 RECURSIVE DenAll(_, _, _)
@@ -695,6 +698,7 @@ CppRowType(prog, ct, i) ==
         [] o \in {"bin:&", "bin:|", "bin:^"} -> CppUAC(c(1), c(2))
         [] o \in {"bin:<<", "bin:>>"} -> CppPromote(c(1))
         [] o = "cond" -> (IF c(2) = c(3) THEN c(2)
+                          ELSE IF CppIsComplex(c(2)) /\ CppIsComplex(c(3)) THEN (IF CppFloatRank(CppPart(c(2))) >= CppFloatRank(CppPart(c(3))) THEN c(2) ELSE c(3))
                           ELSE IF CppIsComplex(c(2)) /\ ~CppIsComplex(c(3)) THEN (IF c(3) = "?" THEN "?" ELSE c(2))
                           ELSE IF CppIsComplex(c(3)) /\ ~CppIsComplex(c(2)) THEN (IF c(2) = "?" THEN "?" ELSE c(3))
                           ELSE CppUAC(c(2), c(3)))
@@ -730,10 +734,11 @@ CppTypingFails(nodes, prog, ds) ==
       judged(i) == /\ prog.rows[i].o # "var" /\ ds[i] # {} /\ ds[i] # Top(nodes) /\ ct[i] # "?"
                    /\ \A m \in ds[i] : nodes[m].v.c # "unsupported"
       \* the text denotes an OPERATION node of another type ...
-      opbad(i) == \E m \in ds[i] : nodes[m].k \notin {"constant", "symbol"} /\ names(m) # {} /\ ct[i] \notin names(m)
+      \* (integer-typed nodes are not judged: their typing is C08's subject)
+      opbad(i) == \E m \in ds[i] : nodes[m].k \notin {"constant", "symbol"} /\ ~IsIntT(nodes[m].t) /\ names(m) # {} /\ ct[i] \notin names(m)
       \* ... or only constant nodes, each of another type, and the conversion is not exact
       constbad(i) == /\ \A m \in ds[i] : nodes[m].k = "constant"
-                     /\ \A m \in ds[i] : names(m) # {} /\ ct[i] \notin names(m) /\ ~harmless(i, m)
+                     /\ \A m \in ds[i] : names(m) # {} /\ ~IsIntT(nodes[m].t) /\ ct[i] \notin names(m) /\ ~harmless(i, m)
       \* sub-terms of a constant expression (the literal inside a cast / a constructor) are not terms of their own
       interior == UNION {{prog.rows[i].a[j] : j \in 1..Len(prog.rows[i].a)} : i \in {ii \in 1..Len(prog.rows) : isConst(ii) \/ CplxConst(prog.rows, ii)}}
       bad(i) == judged(i) /\ i \notin interior /\ (opbad(i) \/ constbad(i))
